@@ -309,3 +309,60 @@ func ZZ_C17_largeBatch() {
 	nondet.Reach("C17.large.last-fails", failed == 1 && !all && pos == n-1)
 	nondet.Reach("C17.large.all-fail", failed == n)
 }
+
+// ZZ_C17_canaryRoleCleanupErrors: "every error returned by a parallel pod ... deletion is reflected ...
+// rather than being lost" in the canary role, whose strategy has its own clean-up call: the canary
+// node holds the canary pod and one or two duplicates to clean up, each clean-up deletion independently
+// fails or not; the PodsCleanupDone condition exists (True, from an earlier successful clean-up) or not.
+// With the status write succeeding, a failed clean-up deletion shows in the error the sync returns or in
+// a persisted ReconcileError=True / PodsCleanupDone=False condition (both: the returned error and a condition).
+func ZZ_C17_canaryRoleCleanupErrors() {
+	c, ds, rsNew, rsOld := zzStore(2)
+	ds.Spec.Strategy.Canary = &datadoghqv1alpha1.ExtendedDaemonSetSpecStrategyCanary{}
+	datadoghqv1alpha1.DefaultExtendedDaemonSetSpec(&ds.Spec, datadoghqv1alpha1.ExtendedDaemonSetSpecStrategyCanaryValidationModeAuto)
+	ds.Status.ActiveReplicaSet = rsOld.Name
+	ds.Status.Canary = &datadoghqv1alpha1.ExtendedDaemonSetStatusCanary{ReplicaSet: rsNew.Name, Nodes: []string{zzNodeName(0)}}
+	c.Pods = append(c.Pods,
+		zzPod("canary-pod", zzNodeName(0), zzRSName, zzHashNew, 0, corev1.PodRunning, true, nondet.Base().Add(-300*1e9)),
+		zzPod("dup1", zzNodeName(0), zzRSName, zzHashNew, 0, corev1.PodRunning, true, nondet.Base().Add(-60*1e9)),
+		zzPod("active-pod", zzNodeName(1), zzOldRS, zzHashOld, 0, corev1.PodRunning, true, nondet.Base().Add(-3600*1e9)))
+	if nondet.Bool("twoDuplicates") {
+		c.Pods = append(c.Pods, zzPod("dup2", zzNodeName(0), zzRSName, zzHashNew, 0, corev1.PodRunning, true, nondet.Base().Add(-30*1e9)))
+	}
+	if nondet.Bool("cleanupCondExists") {
+		c.ERS[0].Status.Conditions = append(c.ERS[0].Status.Conditions, datadoghqv1alpha1.ExtendedDaemonSetReplicaSetCondition{Type: datadoghqv1alpha1.ConditionTypePodsCleanupDone, Status: corev1.ConditionTrue})
+	}
+	c.InjectFaults = true
+	c.FaultOnly = func(verb, kind, name, node string) bool { return verb == "delete" && kind == "Pod" }
+	_, err := zzReconcile(zzReconciler(c, false), zzNS, rsNew.Name)
+	failedCleanup := 0
+	for _, e := range c.Log {
+		if e.Failed && e.Kind == "Pod" && e.Verb == "delete" {
+			failedCleanup++
+		}
+		if e.Kind == "Pod" && e.Verb == "delete" {
+			nondet.Assert("C17.canary-cleanup.only-duplicates-deleted", e.Name == "dup1" || e.Name == "dup2")
+		}
+	}
+	recErr, cleanupFalse := false, false
+	for _, s := range c.ERS {
+		if s.Name == zzRSName {
+			for _, cd := range s.Status.Conditions {
+				if cd.Type == datadoghqv1alpha1.ConditionTypeReconcileError && cd.Status == corev1.ConditionTrue {
+					recErr = true
+				}
+				if cd.Type == datadoghqv1alpha1.ConditionTypePodsCleanupDone && cd.Status == corev1.ConditionFalse {
+					cleanupFalse = true
+				}
+			}
+		}
+	}
+	if failedCleanup > 0 {
+		nondet.Assert("C17.canary-cleanup.error-not-lost", err != nil && (recErr || cleanupFalse))
+	} else {
+		nondet.Assert("C17.canary-cleanup.no-false-alarm", err == nil && !recErr && !cleanupFalse)
+	}
+	nondet.Observe("error", err != nil)
+	nondet.Observe("cleanupFalse", cleanupFalse)
+	nondet.Reach("C17.canary-cleanup.one-of-two-failed", failedCleanup == 1 && c.Count("delete", "Pod") == 2)
+}
